@@ -11,7 +11,7 @@ mkdir -p $ROOT
 if [ ! -d $ROOT/harness ]; then
   mkdir -p $ROOT/harness
   rsync -a --exclude target --exclude .repo /verif/harness/ $ROOT/harness/
-else
+elif [ -n "${REFRESH_HARNESS:-}" ]; then
   rsync -a --exclude target --exclude .repo --exclude build.log --exclude .build.lock /verif/harness/ $ROOT/harness/
 fi
 git -C /repo worktree remove --force $WT >/dev/null 2>&1
